@@ -22,6 +22,8 @@ pub trait Val: Sized + 'static {
     const ZST: bool = false;
     /// zero-size token counted per class in the ledger
     const COUNTED: bool = false;
+    /// how many ledger instances one value of this type owns (an `Option` that is `None` owns none)
+    const INSTANCES: usize = if Self::TRACKED { 1 } else { 0 };
     /// number of distinguishable payloads is at least this (payloads are reduced modulo it)
     fn make(pay: u64) -> Self;
     fn obs(&self) -> Obs;
@@ -429,6 +431,136 @@ impl Val for P12 {
     }
     fn norm(pay: u64) -> u64 {
         pay
+    }
+}
+
+impl Val for bool {
+    const CLASS: u8 = 0;
+    const TRACKED: bool = false;
+    fn make(pay: u64) -> Self {
+        pay % 2 == 1
+    }
+    fn obs(&self) -> Obs {
+        Obs { inst: 0, pay: *self as u64 }
+    }
+    fn set_pay(&mut self, pay: u64) {
+        *self = pay % 2 == 1;
+    }
+    fn norm(pay: u64) -> u64 {
+        pay % 2
+    }
+}
+
+impl Val for char {
+    const CLASS: u8 = 0;
+    const TRACKED: bool = false;
+    fn make(pay: u64) -> Self {
+        // printable, includes non-ASCII and characters JSON must escape
+        char::from_u32(0x20 + (pay % 0x2000) as u32).unwrap_or('?')
+    }
+    fn obs(&self) -> Obs {
+        Obs { inst: 0, pay: *self as u64 }
+    }
+    fn set_pay(&mut self, pay: u64) {
+        *self = Self::make(pay);
+    }
+    fn norm(pay: u64) -> u64 {
+        Self::make(pay) as u64
+    }
+}
+
+impl Val for f64 {
+    const CLASS: u8 = 0;
+    const TRACKED: bool = false;
+    fn make(pay: u64) -> Self {
+        // exactly representable, round-trips through JSON
+        (pay % (1 << 40)) as f64 + 0.5
+    }
+    fn obs(&self) -> Obs {
+        Obs { inst: 0, pay: self.to_bits() }
+    }
+    fn set_pay(&mut self, pay: u64) {
+        *self = Self::make(pay);
+    }
+    fn norm(pay: u64) -> u64 {
+        Self::make(pay).to_bits()
+    }
+}
+
+impl Val for i128 {
+    const CLASS: u8 = 0;
+    const TRACKED: bool = false;
+    fn make(pay: u64) -> Self {
+        -(pay as i128) - 1
+    }
+    fn obs(&self) -> Obs {
+        Obs { inst: 0, pay: (-(*self) - 1) as u64 }
+    }
+    fn set_pay(&mut self, pay: u64) {
+        *self = Self::make(pay);
+    }
+    fn norm(pay: u64) -> u64 {
+        pay
+    }
+}
+
+/// A tuple with padding inside (1 + 3 padding + 4 bytes).
+impl Val for (u8, u32) {
+    const CLASS: u8 = 0;
+    const TRACKED: bool = false;
+    fn make(pay: u64) -> Self {
+        (pay as u8, (pay >> 8) as u32)
+    }
+    fn obs(&self) -> Obs {
+        Obs { inst: 0, pay: self.0 as u64 | (self.1 as u64) << 8 }
+    }
+    fn set_pay(&mut self, pay: u64) {
+        *self = Self::make(pay);
+    }
+    fn norm(pay: u64) -> u64 {
+        pay & 0xff_ffff_ffff
+    }
+}
+
+/// Nested generic heap owner.
+impl Val for Vec<String> {
+    const CLASS: u8 = 0;
+    const TRACKED: bool = false;
+    fn make(pay: u64) -> Self {
+        vec![text_of(pay), text_of(pay + 1)]
+    }
+    fn obs(&self) -> Obs {
+        let ok = self.len() == 2 && pay_of_text(&self[1]) == pay_of_text(&self[0]).wrapping_add(1);
+        Obs { inst: 0, pay: if ok { pay_of_text(&self[0]) } else { u64::MAX } }
+    }
+    fn set_pay(&mut self, pay: u64) {
+        *self = Self::make(pay);
+    }
+    fn norm(pay: u64) -> u64 {
+        pay
+    }
+}
+
+/// An array of droppable values.
+impl Val for [TokA8; 2] {
+    const CLASS: u8 = 1;
+    const TRACKED: bool = false;
+    const INSTANCES: usize = 2;
+    fn make(pay: u64) -> Self {
+        [TokA8::make(pay), TokA8::make(pay ^ 0x5a5a)]
+    }
+    fn obs(&self) -> Obs {
+        let (a, b) = (self[0].obs(), self[1].obs());
+        // both instances must be alive for the observation to be the expected one
+        let ok = b.pay == (a.pay ^ 0x5a5a) & 0xffff_ffff && ledger::is_live(a.inst) && ledger::is_live(b.inst);
+        Obs { inst: 0, pay: if ok { a.pay } else { u64::MAX } }
+    }
+    fn set_pay(&mut self, pay: u64) {
+        self[0].set_pay(pay);
+        self[1].set_pay(pay ^ 0x5a5a);
+    }
+    fn norm(pay: u64) -> u64 {
+        pay as u32 as u64
     }
 }
 
